@@ -3,7 +3,7 @@
 import json, os, shutil, sys
 SEEDS = {
  # id: (worktree, n, property, needs, caught_by {pid: [key substrings]}, note)
- 'C04-1': ('/tmp/wt_C04', 1, 'C04', 'a Sell at a gain carrying a forced (\'!\') superficial-loss value', {}, 'value-level rejection cause (the "iff over the five causes" clause is not decided statically)'),
+ 'C04-1': ('/tmp/wt_C04', 1, 'C04', 'a Sell at a gain carrying a forced (\'!\') superficial-loss value', {'C02': ['force-only-affects-the-discrepancy-check']}, 'seeded against C04, reported by the C02 check after rule R2e (the force marker only switches off the discrepancy check) was added'),
  'C04-2': ('/tmp/wt_C04', 2, 'C04', '--csv-output-dir mode and a security rejected on its first transaction (empty ledger prefix)', {'C04': ['errors-on-every-path']}, 'caught after R4b was strengthened to "errors exported on every non-error path"'),
  'C05-1': ('/tmp/wt_C05', 1, 'C05', 'a superficial loss split between two buying affiliates where one portion is below 1e-10', {'C05': ['c_maybe_round_to_effective_cent', 'T=Pos']}, ''),
  'C05-2': ('/tmp/wt_C05', 2, 'C05', 'E*TRADE option-exercise text with more Grant headings than rows of some kind', {}, 'slice-index panic in the statement parser: outside the two claimed clauses (R5a constrained decimals, R5b parser results)'),
